@@ -12,7 +12,9 @@ structure St where
   ok : Bool := false
   deriving Inhabited
 
-def oracleOf (o : Op) : Oracle := { keyOk := o.bool "keyok", hdrSigOk := o.bool "hsig", dataSigOk := o.bool "dsig" }
+def oracleOf (o : Op) : Oracle :=
+  { keyOk := o.bool "keyok", hdrSigOk := o.bool "hsig", dataSigOk := o.bool "dsig",
+    keyAddr := o.bytes "kaddr" }
 
 def short (b : Bytes) : String := if b.isEmpty then "-" else ((Bytes.toHex b).take 8).toString
 
